@@ -76,6 +76,8 @@ def gen_history(rng, nops, late=False, advb=False, huge=False):
         if k < 0.45 or not lines:
             name = rng.choice(NAMES[:2] if rng.random() < 0.9 else NAMES)
             rtype = rng.choice([1, 1, 16, 12, 47])
+            if rng.random() < 0.04:
+                rtype = 255          # a record of type ANY is a record like any other (it is not a wildcard when stored or flushed)
             ttl = rng.choice(TTLS) if rng.random() < 0.8 else rng.randrange(1, 10)
             if huge and rng.random() < 0.4:
                 ttl = rng.choice(HUGE_TTLS)
